@@ -619,9 +619,18 @@ def run_history(case, tmp, res, rng=None, n_steps=0, meta_p=0.5):
                 received = []
                 real_reveal = reveal_plate.reveal_plates
 
-                def spy(screen_, plate_ids_, _real=real_reveal, _rec=received):
-                    _rec.append([int(i) for i in plate_ids_])
-                    return _real(screen_, plate_ids_)
+                def spy(*args_, _real=real_reveal, _rec=received, **kwargs_):
+                    # signature-agnostic: forwarded exactly as it came; the plate ids are found by binding
+                    try:
+                        import inspect
+                        _rec.append([int(i) for i in inspect.signature(_real).bind(*args_, **kwargs_).arguments["plate_ids"]])
+                    except Exception as e_:
+                        _rec.append(None)
+                        res.count("wrapper.unexpected-call")
+                        if res.distribution.get("wrapper.unexpected-call", 0) <= 3:
+                            res.disagree("C12:harness-wrapper", {"wrapper": "reveal_plates recorder"}, "%s: %s" % (type(e_).__name__, e_),
+                                         "a call with an argument named plate_ids")
+                    return _real(*args_, **kwargs_)
                 reveal_plate.reveal_plates = spy
                 try:
                     run_cli(reveal_plate, ["reveal_plate", "--screen", fin, "--output", fout, "--plate-id"] + [str(i) for i in ids])
@@ -633,7 +642,7 @@ def run_history(case, tmp, res, rng=None, n_steps=0, meta_p=0.5):
                 res.count("class.entry-point.reveal_plate")
                 # what the core RECEIVES: the requested plates (as a set: order / repetition are the glue's business), id 0 included
                 existing_ = set(snap["plate_ids"])
-                if received and set(received[0]) & existing_ != set(ids) & existing_:
+                if received and received[0] is not None and set(received[0]) & existing_ != set(ids) & existing_:
                     res.fail("the plate ids reaching reveal_plates from reveal_plate.main() are not the plates named on the command line", c,
                              {"received": received[0]}, {"--plate-id": ids}, signature=SIG_CLI)
                 a = S.err_tok(lib_exc) if lib_exc is not None else show_stage(lib)
